@@ -200,9 +200,70 @@ def reentrant_skip():
     return REENTRANT_PENDING_FIX
 
 
+CHAIN_KINDS = ["filter", "filter", "map", "take", "skip", "take_while", "take_while", "skip_while", "distinct_until_changed", "distinct",
+               "filter_indexed", "take_last", "skip_last"]
+
+
+def gen_chain(rng, vals=VALS):
+    """two or three directly chained stages, mostly of the SAME kind, over one small alphabet; with partial callbacks: a later
+    stage's callback raises on a marker value that an earlier filter / take_while removes, so it must never see it"""
+    k = rng.choice([2, 2, 3])
+    kind = rng.choice(CHAIN_KINDS)
+    kinds = [kind] * k if rng.random() < 0.8 else [rng.choice(CHAIN_KINDS) for _ in range(k)]
+    alphabet = [enc(v) for v in rng.sample(vals, rng.choice([2, 3, 4]))]
+    inp = gen_timeline(rng, lambda: rng.choice(alphabet))
+    n_el = sum(1 for t, n in inp if n[0] == "N")
+    marker = rng.choice(alphabet) if rng.random() < 0.7 else None
+    removed = False
+    stages = []
+    for kd in kinds:
+        st = {"name": kd}
+        if kd in ("filter", "take_while", "skip_while"):
+            tab = gen_fn1(rng, alphabet, lambda: pred_result(rng, raising=False))
+            if marker is not None:
+                for row in tab["tab"]:
+                    if fw.key(row[0]) == fw.key(marker):
+                        if removed:
+                            row[1] = {"raise": "partial"}      # partial: defined only on what the earlier stage lets through
+                        elif kd in ("filter", "take_while"):
+                            row[1] = False
+                if kd in ("filter", "take_while") and not removed:
+                    removed = True
+            st["p"] = tab
+            if kd == "take_while":
+                st["inclusive"] = False if marker is not None else rng.random() < 0.5
+        elif kd == "map":
+            st["f"] = gen_fn1(rng, alphabet, lambda: rng.choice(alphabet))
+            if marker is not None and removed:
+                for row in st["f"]["tab"]:
+                    if fw.key(row[0]) == fw.key(marker):
+                        row[1] = {"raise": "partial"}
+            elif marker is not None:
+                # the mapper may re-introduce the marker: from here on nothing guarantees it is gone
+                marker = None
+        elif kd == "filter_indexed":
+            used = []
+            for t, n in inp:
+                if n[0] == "N" and fw.key(n[1]) not in [fw.key(u) for u in used]:
+                    used.append(n[1])
+            st["p"] = gen_fn_idx(rng, used, lambda: pred_result(rng, raising=False))
+        elif kd in ("take", "skip", "take_last", "skip_last"):
+            st["n"] = rng.choice([0, 1, 1, 2, 3, max(n_el - 1, 0), n_el])
+        elif kd in ("distinct", "distinct_until_changed"):
+            st["key"] = gen_fn1(rng, alphabet, lambda: rng.choice(alphabet)) if rng.random() < 0.5 else None
+            st["cmp"] = None
+            if st["key"] is not None:
+                marker = None
+        stages.append(st)
+    return {"op": "c05", "name": "chain", "mode": rng.choice(["sub", "sub", "sub", "raw", "feedback"]), "tsub": TSUB,
+            "input": inp, "stages": stages}
+
+
 def cases(rng, tier):
     for _ in range(fw.tier_scale(tier, 4000, 60000)):
         yield gen_case(rng)
+    for _ in range(fw.tier_scale(tier, 800, 10000)):
+        yield gen_chain(rng)
     # re-entrant feedback source (oracle only): the consumer pushes the next element from inside its own on_next
     skip = reentrant_skip()
     for _ in range(fw.tier_scale(tier, 1200, 15000)):
@@ -236,12 +297,26 @@ def _to_notification(j):
     return OnCompleted()
 
 
-def build_operator(case):
-    """the real operator of a case (may raise at construction)"""
+CALLBACK_KEYS = ("f", "p", "key")  # callbacks applied to the ELEMENTS of a stage's input (comparers see keys, not elements)
+
+
+def build_operator(case, registry=None, stage=0):
+    """the real operator of a case (may raise at construction); `registry` collects (stage, key, FnTab) of its callbacks"""
     from reactivex import operators as ops
 
     name = case["name"]
-    fn = lambda k: FnTab.from_json(case[k]) if case.get(k) is not None else None  # noqa
+    if name == "chain":
+        from reactivex import compose
+
+        return compose(*[build_operator(st, registry, i) for i, st in enumerate(case["stages"])])
+
+    def fn(k):
+        if case.get(k) is None:
+            return None
+        t = FnTab.from_json(case[k])
+        if registry is not None and k in CALLBACK_KEYS and name != "starmap":
+            registry.append((stage, k, t))
+        return t
     if name == "map":
         return ops.map(fn("f")) if case.get("f") is not None else ops.map()
     if name == "map_indexed":
@@ -409,16 +484,29 @@ def run_feedback(case, make_observable):
 
 def impl(case):
     if case.get("mode") == "feedback":
+        reg = []
         try:
-            op = build_operator(case)
+            op = build_operator(case, reg)
         except Exception as e:
             return {"ctor": err_name(e)}
-        return run_feedback(case, lambda xs: xs.pipe(op))
+        out = run_feedback(case, lambda xs: xs.pipe(op))
+        if "ctor" not in out:
+            out["calls"] = [[st, k, t.calls] for st, k, t in reg]
+        return out
+    reg = []
     try:
-        op = build_operator(case)
+        op = build_operator(case, reg)
     except Exception as e:  # constructor-time validation
         return {"ctor": err_name(e)}
-    return run_real(case, lambda xs: xs.pipe(op))
+    out = run_real(case, lambda xs: xs.pipe(op))
+    if "ctor" not in out:
+        out["calls"] = [[st, k, t.calls] for st, k, t in reg]
+    return out
+
+
+def canon_impl(case, out):
+    """the callback call logs are checked by the oracle; the model does not produce them"""
+    return {k: v for k, v in out.items() if k != "calls"} if isinstance(out, dict) else out
 
 
 # single-stage operators with a split (re-entrant) model in RxModel/OpsFb.lean; compositions (map_indexed,
@@ -460,6 +548,15 @@ def py_ref(case, xs_enc, end):
     """The Python list computation of the property text: notifications for elements `xs_enc` (encoded) ending with
     `end` (None = not ended yet, ["C"], ["E", name])."""
     name = case["name"]
+    if name == "chain":
+        cur, cend = xs_enc, end
+        for st in case["stages"]:
+            notifs = py_ref(st, cur, cend)
+            if notifs is None:
+                return None
+            cur = [n[1] for n in notifs if n[0] == "N"]
+            cend = notifs[-1] if notifs and notifs[-1][0] in ("C", "E") else None
+        return [["N", x] for x in cur] + ([cend] if cend is not None else [])
     xs = [dec(x) for x in xs_enc]
     endl = [end] if end is not None else []
     fn = lambda k: FnTab.from_json(case[k]) if case.get(k) is not None else None  # noqa
@@ -669,7 +766,50 @@ def oracle_feedback(case, out):
     return None
 
 
+def stage_inputs(case):
+    """encoded elements reaching each stage (list reference), for the conforming input"""
+    ts, xs, end, tend = conforming(case["input"])
+    stages = case["stages"] if case["name"] == "chain" else [case]
+    ins, cur, cend = [], xs, end
+    for st in stages:
+        ins.append(cur)
+        notifs = py_ref(st, cur, cend)
+        if notifs is None:
+            return None
+        cur = [n[1] for n in notifs if n[0] == "N"]
+        cend = notifs[-1] if notifs and notifs[-1][0] in ("C", "E") else None
+    return ins
+
+
+def oracle_calls(case, out):
+    """every callback of a stage is applied to the elements of THAT stage's input, in order (a prefix of them: the stage
+    may stop calling it once it has terminated) — never to an element an earlier stage removed or did not produce"""
+    if not isinstance(out, dict) or "calls" not in out:
+        return None
+    ins = stage_inputs(case)
+    if ins is None:
+        return None
+    for st, k, calls in out["calls"]:
+        seen = [(c["t"][0] if isinstance(c, dict) and "t" in c and len(c["t"]) == 2 and isinstance(c["t"][1], int)
+                 and not isinstance(c["t"][1], bool) and _indexed(case, st) else c) for c in calls]
+        want = ins[st][: len(seen)]
+        if fw.key(seen) != fw.key(want):
+            return (f"stage {st} callback '{k}' was applied to {seen}, but the elements reaching that stage are {ins[st]} "
+                    f"(it must see a prefix of them, in order)")
+    return None
+
+
+def _indexed(case, st):
+    name = (case["stages"][st] if case["name"] == "chain" else case)["name"]
+    return name in ("map_indexed", "filter_indexed", "take_while_indexed", "skip_while_indexed", "find", "find_index")
+
+
 def oracle(case, out):
+    v = oracle_main(case, out)
+    return v or oracle_calls(case, out)
+
+
+def oracle_main(case, out):
     if case.get("mode") == "feedback":
         return oracle_feedback(case, out)
     exp = expected_timed(case)
@@ -699,6 +839,8 @@ def nontrivial(case, out):
 
 def bucket(case, out):
     yield "op:" + case["name"]
+    if case["name"] == "chain":
+        yield "chain:" + "|".join(st["name"] for st in case["stages"])
     yield "mode:" + case["mode"]
     ts, xs, end, tend = conforming(case["input"])
     yield "end:" + (end[0] if end else "open")
